@@ -26,6 +26,7 @@ From Coq Require Import ZArith List Bool Lia.
 From AV Require Import Lib.Bytes Lib.RtpX Gen.Utils Gen.RtpConst Model.Rtp Proof.SerialP.
 From AV Require Lib.CodecX Model.Jitter Model.RtpSend Model.RtpRecv.
 From AV Require Proof.RtpSendP Proof.RtpRecvNackP Proof.RtpRecvJbP Proof.RtpRecvP Proof.RtpLinkP Proof.RtpEndP.
+From AV Require Proof.JitterP Proof.JitterOrderP Proof.RtpOrderP.
 Import ListNotations.
 Local Open Scope Z_scope.
 
@@ -177,6 +178,22 @@ Theorem C11_sender_meets_hypotheses : forall s0 ops s outs,
   concat (SP.sent_frames outs) = S.media outs.
 Proof. exact RtpEndP.sender_stream_ok. Qed.
 Print Assumptions C11_sender_meets_hypotheses.
+
+(* FRAME ORDER.  For every arrival list handled by a fresh video receiver whose media packets
+   (those passing the codec and RTX guards) never arrive MAX_MISORDER or more positions late, the
+   frames handed to the decoder, in the order they are handed over, occupy disjoint, strictly
+   increasing intervals of unwrapped stream positions counted from the first media packet (C10's
+   ordering theorem lifted through the receive pipeline): frames reach the decoder in stream
+   order and no stream position is decoded twice. *)
+Module OP := AV.Proof.RtpOrderP.
+Theorem C11_frame_order : forall c l s' outs p jl,
+  V.run c V.init_video l = Ok (s', outs) ->
+  flat_map (VP.jb_input c) l = p :: jl ->
+  Forall AV.Proof.JitterP.seq16 (p :: jl) -> AV.Proof.JitterOrderP.never_late V.VIDEO_CAPACITY 0 true (p :: jl) ->
+  exists fs, AV.Proof.JitterOrderP.ordered_from (AV.Model.Jitter.pseq p) 0 fs /\
+             OP.decoder_frames outs = map AV.Model.Jitter.fdata fs.
+Proof. exact OP.decoder_frames_ordered. Qed.
+Print Assumptions C11_frame_order.
 
 (* ---------------------------------------------------------------- non-vacuity *)
 Definition ex_sender : S.sender := S.mkSender 100 7 8 (Some 101) None 65535 4294967000 32000 [].
